@@ -30,6 +30,11 @@
 // the name that fires (gorm either moves the callback or reports "conflicting callback"); and a
 // callback that names such a name in its own Before/After still has to fire on that side of it
 // (the name fires once, wherever that is).
+// A BUILT-IN name that was given further entries and never removed still stands for a built-in callback under
+// either reading of the repeated call (one callback defined anew / a further callback next to the persisting
+// built-in): when exactly one handler of the name fires, it has to fire where the built-in stood relative to
+// the other built-ins - "with the built-in callbacks in their original relative order" - or a call had to
+// return an error (builtin-order:registered-again / :multi-entry / :replace-request).
 // "The pipeline runs every callback exactly once" is demanded of every run of the pipeline, not
 // only of a healthy statement: after the healthy execution the same handle executes the pipeline
 // again, once per entry (see entries): a second time; with an error attached to the statement
@@ -98,6 +103,15 @@
 //	                              no call returned an error, a constraint is broken
 //	contradiction-accepted:star   satisfiable without the "*" constraints, not with them
 //	builtin-order                 built-ins fired in another relative order
+//	builtin-order:registered-again
+//	                              a BUILT-IN name was registered again while it existed (never removed), no call under
+//	                              the name ever carried a request, every call returned nil: the handler of the name
+//	                              that fires is not where the built-in stood among the other built-ins
+//	builtin-order:multi-entry / builtin-order:replace-request
+//	                              same, some entry of the name carried a Before/After request (the newest entry made
+//	                              by Register / by a Replace carrying a request): nil was returned, so the built-in order
+//	                              had to be kept. (These three take no part in the satisfiability question that splits
+//	                              side:* from contradiction-accepted:*, and are never renamed by it.)
 //	replace-position              a Replace'd callback changed sides relative to another one
 //	<class>@repeat                a problem of the second execution on the same handle that the
 //	                              first (healthy) execution does not have
@@ -587,6 +601,77 @@ func posSeq(p *pipeline, idx int) []step {
 	return seq
 }
 
+// againSeq enumerates the family "a BUILT-IN x is registered again WITHOUT any request" (the way a plugin
+// overrides a built-in: db.Callback().Create().Register("gorm:create", fn)), over the full built-in alphabet
+// of the pipeline (n built-ins: 32*n + 2 sequences of length 1..n):
+//
+//	first : nothing | Register(u1) | Before(x).Register(u1) | After(x).Register(u1)
+//	call  : Register(x)
+//	then  : nothing | Register(x) (a third entry) | Replace(x) | Register(u2) | After(x).Register(u2) |
+//	        Before(x).Register(u2) | Remove(y) | Replace(y)        (y = the built-in next to x: the following
+//	        one, the preceding one for the last; nothing when x is the only built-in)
+//	and   : every built-in of the pipeline registered again, in their own order | in reverse order
+//
+// No call carries a request that could ask x to move: x has to fire where the built-in stood.
+func againCount(p *pipeline) int { return 32*len(p.builtins) + 2 }
+
+func againSeq(p *pipeline, idx int) []step {
+	n := len(p.builtins)
+	u1, u2 := userBase, userBase+1
+	var seq []step
+	reg := func(op, name, bef, aft int) {
+		seq = append(seq, step{Op: uint8(op), Name: uint8(name), Bef: uint8(bef), Aft: uint8(aft)})
+	}
+	if idx >= 32*n {
+		for i := 0; i < n; i++ {
+			if idx == 32*n {
+				reg(opRegister, i, none, none)
+			} else {
+				reg(opRegister, n-1-i, none, none)
+			}
+		}
+		return seq
+	}
+	tail := idx % 8
+	idx /= 8
+	first := idx % 4
+	x := idx / 4
+	y := x + 1
+	if y == n {
+		y = x - 1
+	}
+	switch first {
+	case 1:
+		reg(opRegister, u1, none, none)
+	case 2:
+		reg(opRegister, u1, x, none)
+	case 3:
+		reg(opRegister, u1, none, x)
+	}
+	reg(opRegister, x, none, none)
+	switch tail {
+	case 1:
+		reg(opRegister, x, none, none)
+	case 2:
+		reg(opReplace, x, none, none)
+	case 3:
+		reg(opRegister, u2, none, none)
+	case 4:
+		reg(opRegister, u2, none, x)
+	case 5:
+		reg(opRegister, u2, x, none)
+	case 6:
+		if y >= 0 {
+			reg(opRemove, y, none, none)
+		}
+	case 7:
+		if y >= 0 {
+			reg(opReplace, y, none, none)
+		}
+	}
+	return seq
+}
+
 var blockCache = map[string][]block{}
 
 func blocks(tier string) []block {
@@ -619,6 +704,16 @@ func exhaustiveCases(tier string) int {
 	n := 0
 	for _, b := range blocks(tier) {
 		n += b.size
+	}
+	return n
+}
+
+// againCases: the "built-in registered again without a request" family of every pipeline. Its cases are
+// numbered behind the random ones, so that the cases of the older families keep their numbers (and seeds).
+func againCases() int {
+	n := 0
+	for pl := range pipelines {
+		n += againCount(&pipelines[pl])
 	}
 	return n
 }
@@ -814,9 +909,9 @@ type nameState struct {
 	// entryReq: some call that made an entry under the name in this life (the first registration, a Register
 	// under the existing name, a Replace carrying a request) carried a Before/After request. entries = number
 	// of entries the name was given in this life.
-	entryReq bool
-	entries  int
-	removedMulti           bool  // the Remove that ended the current/last life hit a multi name
+	entryReq     bool
+	entries      int
+	removedMulti bool // the Remove that ended the current/last life hit a multi name
 }
 
 func has(l []int, v int) bool {
@@ -1355,6 +1450,8 @@ const lateName = userBase + 8 // "u9": no generator uses it
 //	                                 position does not satisfy unless it already fires after u9: an
 //	                                 error return, or it has to move)       (case/4 mod 3)
 //	the highest other live user callback is removed.
+//	the main built-in, if the sequence left it a specified built-in (never removed), is registered again
+//	                                 without a request (a plugin overriding it late)   (case/12 mod 2 = 1)
 func lateCalls(p *pipeline, seq []step, caseNo int) []step {
 	m := model(p, seq)
 	var users []int
@@ -1393,6 +1490,9 @@ func lateCalls(p *pipeline, seq []step, caseNo int) []step {
 	}
 	if len(users) > 1 {
 		out = append(out, step{Op: opRemove, Name: uint8(users[len(users)-1]), Bef: none, Aft: none})
+	}
+	if ns := m[mainB]; (caseNo/12)%2 == 1 && ns.live && !ns.weak {
+		out = append(out, step{Op: opRegister, Name: uint8(mainB), Bef: none, Aft: none})
 	}
 	return out
 }
@@ -1652,7 +1752,7 @@ func check(p *pipeline, m map[int]*nameState, trace []ev, modeA, touched, failed
 			continue
 		}
 		switch {
-		case r.class == "builtin-order":
+		case strings.HasPrefix(r.class, "builtin-order"):
 			st.builtinPairs++
 		case strings.HasPrefix(r.class, "side:star"):
 			st.star++
@@ -1671,6 +1771,7 @@ func check(p *pipeline, m map[int]*nameState, trace []ev, modeA, touched, failed
 		// with them (:multi-entry)
 		var plainReqs []req
 		multiSfx := ":multi-entry"
+		reqs := noSlot(reqs)
 		for _, r := range reqs {
 			if r.sfx == "" {
 				plainReqs = append(plainReqs, r)
@@ -1691,7 +1792,7 @@ func check(p *pipeline, m map[int]*nameState, trace []ev, modeA, touched, failed
 		}
 		for _, r := range ord {
 			pr := problem{r.class, r.text}
-			if over != "" {
+			if over != "" && !r.slot {
 				sfx := r.sfx
 				if sfx == "" {
 					sfx = overSfx
@@ -1720,6 +1821,21 @@ type req struct {
 	// sfx: the part of class that says the requirement involves a name with several entries ("" for
 	// the requirements of single-entry callbacks and the built-in order)
 	sfx string
+	// slot: the requirement that a built-in NAME with several entries fires where the built-in stood. It is
+	// checked like any other, but it takes no part in the question whether what was requested is satisfiable:
+	// the classes side:* / contradiction-accepted:* (and fatal:satisfiable-request) keep the extension they had
+	// before this requirement existed, and a broken slot requirement is always reported under its own class.
+	slot bool
+}
+
+func noSlot(reqs []req) []req {
+	out := reqs[:0:0]
+	for _, r := range reqs {
+		if !r.slot {
+			out = append(out, r)
+		}
+	}
+	return out
 }
 
 // requirements derives from the model every ordering the statement demands of a pipeline
@@ -1737,7 +1853,7 @@ func requirements(p *pipeline, m map[int]*nameState, withWeak bool) (out []req, 
 			continue
 		}
 		if lastID >= 0 {
-			out = append(out, req{lastID, id, "builtin-order", fmt.Sprintf("built-in %s fired before built-in %s", p.nameOf(id), p.nameOf(lastID)), ""})
+			out = append(out, req{lastID, id, "builtin-order", fmt.Sprintf("built-in %s fired before built-in %s", p.nameOf(id), p.nameOf(lastID)), "", false})
 		}
 		lastID = id
 	}
@@ -1761,21 +1877,18 @@ func requirements(p *pipeline, m map[int]*nameState, withWeak bool) (out []req, 
 			if ns.lastReplace {
 				class = "builtin-order:replace-request"
 			}
-			if ns.namedBy || ns.olderNamed {
-				sfx = ":multi-entry:rewritten" // (precondition of the sorter's known rewriting of stored requests)
-			}
 		}
 		spec := func(y int) bool { ys := m[y]; return ys.live && !ys.weak }
 		for y := id - 1; y >= 0; y-- {
 			if spec(y) {
-				out = append(out, req{y, id, class, fmt.Sprintf("built-in name %s (%d entries, never removed) fired before built-in %s", p.nameOf(id), ns.entries, p.nameOf(y)), sfx})
+				out = append(out, req{y, id, class, fmt.Sprintf("built-in name %s (%d entries, never removed) fired before built-in %s", p.nameOf(id), ns.entries, p.nameOf(y)), sfx, true})
 				break
 			}
 		}
 		for y := id + 1; y < len(p.builtins); y++ {
 			if spec(y) {
 				if !m[y].multi { // (a several-entry successor links itself to this one)
-					out = append(out, req{id, y, class, fmt.Sprintf("built-in %s fired before built-in name %s (%d entries, never removed)", p.nameOf(y), p.nameOf(id), ns.entries), sfx})
+					out = append(out, req{id, y, class, fmt.Sprintf("built-in %s fired before built-in name %s (%d entries, never removed)", p.nameOf(y), p.nameOf(id), ns.entries), sfx, true})
 				}
 				break
 			}
@@ -1819,9 +1932,9 @@ func requirements(p *pipeline, m map[int]*nameState, withWeak bool) (out []req, 
 				}
 				text := fmt.Sprintf("%s existed and was %s %s %s (the call returned nil) but fired on the other side of it", p.nameOf(id), how, word, p.nameOf(t))
 				if side == 0 {
-					out = append(out, req{id, t, class + sfx, text, sfx})
+					out = append(out, req{id, t, class + sfx, text, sfx, false})
 				} else {
-					out = append(out, req{t, id, class + sfx, text, sfx})
+					out = append(out, req{t, id, class + sfx, text, sfx, false})
 				}
 			}
 		}
@@ -1839,9 +1952,9 @@ func requirements(p *pipeline, m map[int]*nameState, withWeak bool) (out []req, 
 			sfx := ""
 			mk := func(other int, cl, text string) {
 				if side == 0 {
-					out = append(out, req{id, other, cl, text, sfx})
+					out = append(out, req{id, other, cl, text, sfx, false})
 				} else {
-					out = append(out, req{other, id, cl, text, sfx})
+					out = append(out, req{other, id, cl, text, sfx, false})
 				}
 			}
 			if t == idStar {
@@ -2079,6 +2192,16 @@ func caseSeq(c *core.Ctx) (pl int, seq []step, origin string) {
 		}
 		idx -= b.size
 	}
+	if idx >= randomCases(c.Tier) {
+		idx -= randomCases(c.Tier)
+		for pl = range pipelines {
+			if n := againCount(&pipelines[pl]); idx < n {
+				return pl, againSeq(&pipelines[pl], idx), "exhaustive built-in-registered-again family"
+			} else {
+				idx -= n
+			}
+		}
+	}
 	pl = c.R.Intn(len(pipelines))
 	return pl, randomSeq(c.R, &pipelines[pl]), "random"
 }
@@ -2135,7 +2258,7 @@ func run(c *core.Ctx) {
 			// was everything that was requested satisfiable after every call?
 			sig := "fatal:satisfiable-request"
 			for n := 1; n <= len(seq); n++ {
-				if reqs, _ := requirements(p, model(p, seq[:n]), true); !satisfiable(reqs, true) {
+				if reqs, _ := requirements(p, model(p, seq[:n]), true); !satisfiable(noSlot(reqs), true) {
 					sig = "fatal"
 					break
 				}
@@ -2468,12 +2591,12 @@ var Engine = &core.Engine{
 	Level: "exploration",
 	Rule: "one case = one registration sequence on one of the six pipelines (Create, Query, Update, Delete, Row, Raw), applied to a fresh gorm handle and followed by a real execution of the pipeline against SQLite, twice: with the built-ins wrapped by recording functions (B) and on the pristine registry with the built-ins seen through driver events and model hooks (A). " +
 		"Calls: Register, Before(t).Register, After(t).Register, Before(t).After(t').Register (both chain orders), Replace, Remove; registered names: canonical fresh names, names removed earlier, and user names that exist at that moment (second entry under one name; in the enumeration such a call carries at most one request); targets t: every built-in of the pipeline, every user name introduced so far, the next name to be introduced (forward reference / unknown), '*'; Replace/Remove names: built-ins, user names, an unknown name. " +
-		"Enumerated completely: all sequences of length 0..2 on every pipeline (quick and thorough); thorough adds all sequences of length 3 with the built-in alphabet reduced to {first, main, last} built-in on Create/Update/Delete (full on Query/Row/Raw). Also enumerated on every pipeline: the 150 'move' sequences of length 4 (register u1 and u2 with plain/Before/After constraints, remove one, register it again with other constraints) and the 2 376 'second entry' sequences of length 3..6 (a name x that exists - a user callback registered plain / Before / After a built-in / Before or After '*', or the main built-in - gets a second entry through Register or through Before/After(..).Replace, with a neighbour registered plain / Before(x) / After(x); or through Before(built-in).After(neighbour).Register / Before(neighbour).Replace - so that the request of the second entry is in some sequences already met by the position x has and in others not: the call then has to return an error or x has to move; then nothing | Remove(x) | Remove, Register again (plain / After(neighbour)) | Replace(x) | Replace, Remove | Before(neighbour).Remove(x) | third Register, Remove | a third entry After(neighbour) | a third entry Before(built-in) | a new callback registered After(x)). Also enumerated on every pipeline (n built-ins: 16*n*(n+1) sequences, 2 976 in all): a BUILT-IN x is given a second entry that carries a request, over the full built-in alphabet: Register(u1), then Before(t).Replace(x) | After(t).Replace(x) | Before(t).Register(x) | After(t).Register(x) for every built-in x and every t among the other built-ins, u1 and '*', then nothing | Remove(x) | Replace(x) | After(x).Register(u2). Then random sequences of length 3..8 over 5 user names (forward and removed names as targets, unknown name, '*', remove-and-register-again moves, second entries under existing user and built-in names by Register or by a Replace carrying a request, Remove calls carrying a request): 5 000 quick / 300 000 thorough. " +
-		"Entry into the pipeline: after the healthy execution (Create with belongs-to and has-many / Preload+Find / Model.Updates / Select.Delete / Row or Rows / Exec) EVERY case executes the pipeline again on the same handle, once per entry, and each execution is held to the same model: (repeat) the same operation a second time; (failed-statement: the statement carries an error before the first callback runs) tx.AddError on a session handle, a Scope that adds an error, a *int as model/destination (Statement.Parse fails; not for Exec), a nil *Main (ErrInvalidValue), a transaction handle from a Begin that the driver failed [B]; (driver-fault) [B] a healthy statement with the driver failing the (1 + case mod 3)-th call it receives (begin / statement / commit, also those of nested association writes); (session) [B] a DryRun session, a handle from db.Begin() rolled back afterwards. [B] = only with the wrapped built-ins; the others also on the pristine registry, where a failed statement shows the stubs only. A problem that the healthy execution already has is not reported again; a new one gets the signature <class>@<entry group>. Then, in mode B, 1..3 late registration calls are made on the executed registry - a new name u9 is registered (by case mod 4: plain | Before(main built-in) | After(lowest live user callback) | Before(lowest live user callback)); the lowest live user callback is (by case/4 mod 3) Replace'd | registered again (a second entry made late) | registered again After(\"u9\") (a request its position normally contradicts: error return or move); the highest other live user callback is removed - and the pipeline is executed once more, checked against the model of the sequence including those calls (plain signatures, suffixes computed over the whole sequence). " +
-		"A name with several entries is held to: the handler handed over by the LAST call under the name (Register again, Replace carrying a request, or a later plain Replace) fires exactly once - in both observation modes, for user and built-in names (signatures stale-handler:registered-again, stale-handler:replace-request, stale-handler:multi-entry, not-once:missing:multi-entry; suffix :older-star when an older entry of the name carries a '*' request that the newest does not, :older-star:rewritten when the newest carries it too but another call names the callback) -, no handler twice, none after Remove, a handler replaced by a Replace (plain or carrying a request) does not fire next to the new one (replaced-ran:multi-entry), AND the named Before/After request of the call that made its newest entry holds (signatures side:before|after:multi-entry, :replace-request; :rewritten when another call names the callback or an earlier call under its name carried a named request); requests of other callbacks that name such a name are checked too (:multi-target). " +
+		"Enumerated completely: all sequences of length 0..2 on every pipeline (quick and thorough); thorough adds all sequences of length 3 with the built-in alphabet reduced to {first, main, last} built-in on Create/Update/Delete (full on Query/Row/Raw). Also enumerated on every pipeline: the 150 'move' sequences of length 4 (register u1 and u2 with plain/Before/After constraints, remove one, register it again with other constraints) and the 2 376 'second entry' sequences of length 3..6 (a name x that exists - a user callback registered plain / Before / After a built-in / Before or After '*', or the main built-in - gets a second entry through Register or through Before/After(..).Replace, with a neighbour registered plain / Before(x) / After(x); or through Before(built-in).After(neighbour).Register / Before(neighbour).Replace - so that the request of the second entry is in some sequences already met by the position x has and in others not: the call then has to return an error or x has to move; then nothing | Remove(x) | Remove, Register again (plain / After(neighbour)) | Replace(x) | Replace, Remove | Before(neighbour).Remove(x) | third Register, Remove | a third entry After(neighbour) | a third entry Before(built-in) | a new callback registered After(x)). Also enumerated on every pipeline (n built-ins: 16*n*(n+1) sequences, 2 976 in all): a BUILT-IN x is given a second entry that carries a request, over the full built-in alphabet: Register(u1), then Before(t).Replace(x) | After(t).Replace(x) | Before(t).Register(x) | After(t).Register(x) for every built-in x and every t among the other built-ins, u1 and '*', then nothing | Remove(x) | Replace(x) | After(x).Register(u2). Also enumerated on every pipeline (32*n+2 sequences, 844 in all, numbered behind the random cases): a BUILT-IN x is registered again WITHOUT a request (a plugin overriding it), for every built-in x: nothing | Register(u1) | Before(x).Register(u1) | After(x).Register(u1), then Register(x), then nothing | Register(x) a third time | Replace(x) | Register(u2) | After(x).Register(u2) | Before(x).Register(u2) | Remove(neighbouring built-in) | Replace(neighbouring built-in); and every built-in of the pipeline registered again, in their own and in reverse order. Then random sequences of length 3..8 over 5 user names (forward and removed names as targets, unknown name, '*', remove-and-register-again moves, second entries under existing user and built-in names by Register or by a Replace carrying a request, Remove calls carrying a request): 5 000 quick / 300 000 thorough. " +
+		"Entry into the pipeline: after the healthy execution (Create with belongs-to and has-many / Preload+Find / Model.Updates / Select.Delete / Row or Rows / Exec) EVERY case executes the pipeline again on the same handle, once per entry, and each execution is held to the same model: (repeat) the same operation a second time; (failed-statement: the statement carries an error before the first callback runs) tx.AddError on a session handle, a Scope that adds an error, a *int as model/destination (Statement.Parse fails; not for Exec), a nil *Main (ErrInvalidValue), a transaction handle from a Begin that the driver failed [B]; (driver-fault) [B] a healthy statement with the driver failing the (1 + case mod 3)-th call it receives (begin / statement / commit, also those of nested association writes); (session) [B] a DryRun session, a handle from db.Begin() rolled back afterwards. [B] = only with the wrapped built-ins; the others also on the pristine registry, where a failed statement shows the stubs only. A problem that the healthy execution already has is not reported again; a new one gets the signature <class>@<entry group>. Then, in mode B, 1..3 late registration calls are made on the executed registry - a new name u9 is registered (by case mod 4: plain | Before(main built-in) | After(lowest live user callback) | Before(lowest live user callback)); the lowest live user callback is (by case/4 mod 3) Replace'd | registered again (a second entry made late) | registered again After(\"u9\") (a request its position normally contradicts: error return or move); the highest other live user callback is removed; (case/12 mod 2 = 1) the main built-in, if never removed, is registered again without a request - and the pipeline is executed once more, checked against the model of the sequence including those calls (plain signatures, suffixes computed over the whole sequence). " +
+		"A name with several entries is held to: the handler handed over by the LAST call under the name (Register again, Replace carrying a request, or a later plain Replace) fires exactly once - in both observation modes, for user and built-in names (signatures stale-handler:registered-again, stale-handler:replace-request, stale-handler:multi-entry, not-once:missing:multi-entry; suffix :older-star when an older entry of the name carries a '*' request that the newest does not, :older-star:rewritten when the newest carries it too but another call names the callback) -, no handler twice, none after Remove, a handler replaced by a Replace (plain or carrying a request) does not fire next to the new one (replaced-ran:multi-entry), AND the named Before/After request of the call that made its newest entry holds (signatures side:before|after:multi-entry, :replace-request; :rewritten when another call names the callback or an earlier call under its name carried a named request); requests of other callbacks that name such a name are checked too (:multi-target). A BUILT-IN name with several entries that was never removed is, in addition, held to the built-in order: when exactly one handler of the name fires it fires between the nearest specified built-ins on either side, as the built-in did (builtin-order:registered-again when no call under the name carried a request, builtin-order:multi-entry / :replace-request otherwise); these requirements are left out when it is decided whether the requests are satisfiable, so the older classes keep their extension. " +
 		"Ordering violations are classified by whether an order satisfying everything requested exists (side:*) or not (contradiction-accepted:*: the statement then demands an error return). distinct = (pipeline, literal sequence); non-trivial = no call returned an error, the pipeline ran, and at least one Before/After constraint with a running target, one removal, one replacement or one name with several entries was checked against the firing order",
 	Assumptions: []string{
-		"a second entry under a name that exists at that moment (Register of an existing user or built-in name; Replace carrying Before/After, which gorm stores as an entry of its own) IS generated. The statement does not say where such a name then runs, nor whether the OLDER handler of a name that was merely registered again still runs as a callback of its own; it does say that every registered, non-removed callback runs exactly once and that Replace puts the new function in the place of the replaced callback. Demanded therefore: the handler handed over by the last call under the name (that call returned nil and nothing removed or replaced the handler since) fires exactly once - under either reading of a repeated Register it is a registered callback -, a handler that a later Replace (plain, or carrying Before/After) replaced does not fire, no handler fires twice, after Remove(name) none of them fires (and a later Register of the name starts afresh), that the NAMED Before/After request carried by the call that made the newest entry holds for the handler that fires (that call returned nil; whether the name is one callback defined anew or several callbacks, this request stands), and that a callback naming such a name fires on the requested side of it. Not checked: the requests of the older entries of the name (a later registration may be read as superseding them), a '*' request of a second entry, the Replace position of such a name and the built-in order relative to it",
+		"a second entry under a name that exists at that moment (Register of an existing user or built-in name; Replace carrying Before/After, which gorm stores as an entry of its own) IS generated. The statement does not say where such a name then runs, nor whether the OLDER handler of a name that was merely registered again still runs as a callback of its own; it does say that every registered, non-removed callback runs exactly once and that Replace puts the new function in the place of the replaced callback. Demanded therefore: the handler handed over by the last call under the name (that call returned nil and nothing removed or replaced the handler since) fires exactly once - under either reading of a repeated Register it is a registered callback -, a handler that a later Replace (plain, or carrying Before/After) replaced does not fire, no handler fires twice, after Remove(name) none of them fires (and a later Register of the name starts afresh), that the NAMED Before/After request carried by the call that made the newest entry holds for the handler that fires (that call returned nil; whether the name is one callback defined anew or several callbacks, this request stands), and that a callback naming such a name fires on the requested side of it. For a BUILT-IN name that was never removed the built-in order is demanded as well: either the name is still the one built-in callback (its function defined anew) or the built-in persists next to the new callback - in both readings a callback of that name stands in the built-in's place, so when exactly one handler of the name fires it has to be there (a call that asks the built-in to leave its place has to return an error, as the statement demands of every request that contradicts the built-in order; the unchanged gorm does). Not checked: the requests of the older entries of the name (a later registration may be read as superseding them), a '*' request of a second entry, the Replace position of such a name, the order of a several-entry USER name relative to callbacks that do not name it, and the built-in order when two handlers of the name fire",
 		"a built-in name that was removed and is then registered again is treated the same way (position unspecified); the random generator does not produce it",
 		"a callback never names itself in Before/After; the Before/After requests of a Remove call mean nothing (the callback is removed all the same); plain Replace and Remove are the only forms in the exhaustive enumeration; Match is not used",
 		"'*' is read weakly: a callback registered Before(\"*\") (After(\"*\")) must fire before (after) every built-in and every callback registered without any Before/After; nothing is demanded relative to callbacks that carry constraints of their own",
@@ -2486,7 +2609,7 @@ var Engine = &core.Engine{
 		"mode A: gorm:setup_reflect_value has no visible effect and is only covered by mode B; when the sequence replaces or removes a built-in, the effects of the other built-ins are required at most once (their visibility may depend on the missing one)",
 		"a sequence whose execution ends the process is a violation with signature 'fatal' (neither an error return nor a working pipeline): sequences whose constraints among existing user callbacks form a cycle are first executed in a process of their own (probe) so that the batch survives; any other process-fatal case is attributed by the runner's per-case log",
 	},
-	Cases:         func(tier string) int { return exhaustiveCases(tier) + randomCases(tier) },
+	Cases:         func(tier string) int { return exhaustiveCases(tier) + randomCases(tier) + againCases() },
 	Batch:         func(string) int { return 256 },
 	Run:           run,
 	Init:          initEnv,
